@@ -200,7 +200,7 @@ def run(ctx):
         "state space with a functorial action of exact matrices on qubit lists (laws: composition, identity, global "
         "phase, locality; rotation operators exact on representable angles and a function of the angle).  That state "
         "vectors with the standard operator action satisfy these laws is linear algebra, not formalised.  The oracle "
-        "still evaluates every row numerically and draws programs only from rows that hold.",
+        "streams use all gates: a row that is numerically not its gate shows up as a program whose final state differs.",
         "qubit allocation is not modelled: carbon-carbon blocks borrow virtual qubit 0, which the oracle programs keep "
         "allocated (NV: the electron always exists)",
         "vanilla `mov` has no operator in the executor; its meaning is C07's mov_transfers (state transfer onto a fresh "
@@ -241,15 +241,15 @@ def run(ctx):
         bad = nv_impl.unsound_rows(tab)
     else:
         # the table translator no longer understands the transpiler: the Coq side cannot be
-        # evaluated; the oracle still runs (search for a concrete failing input), on the gates
-        # whose blocks were sound when this check was written
-        bad = ["s", "t"]
-    bad1 = [b for b in bad if isinstance(b, str)]
-    bad2 = [b for b in bad if not isinstance(b, str)]
+        # evaluated; the oracle still runs (search for a concrete failing input)
+        bad = []
+    # Block soundness is no longer a hypothesis of C08 (C08_c07_rows / C08_blocks_sound prove it from the
+    # regenerated rows), so a block that is numerically not its gate is C08's own failure: the oracle streams
+    # use ALL gates and such a row shows up as a program whose final state differs.
     if bad:
-        ctx.notes.append(f"blocks_sound fails numerically for rows {bad} (C07's claim); oracle programs avoid them")
-    g1_ok = [g for g in nv_gen.G1 if g not in bad1]
-    g2_ok = [g for g in ("cnot", "cphase") if not any(b[0] == g for b in bad2)]
+        ctx.notes.append(f"rows that are numerically not their gate: {bad}")
+    g1_ok = list(nv_gen.G1)
+    g2_ok = ["cnot", "cphase"]
     rng = ctx.rng
     stats = {}
     cov = dict(sizes={}, features={})
